@@ -398,6 +398,11 @@ PROPS["C15"]["harnesses"] += [
       bounds="unwind 16; segment<=40B, request size<=12 align<=16, grow by 1..=6"),
 ]
 PROPS["C14"]["harnesses"] += [
+    H("cal::c15cal::c14_shm_pool_relocation", features=CAL, covers=1, timeout=1800, mem_gb=10,
+      what="shm PoolAllocator + management memory + payload stand-in in one block, byte-copied to a fresh address at a "
+           "symbolic point of an allocate/deallocate history: same offsets as the twin that stayed, and the old mapping "
+           "(scribbled, kept alive) is never written: the creator's start address is used as a number only",
+      bounds="unwind 8; 4 buckets, 3 operations, relocation point symbolic"),
     H("cal::c15cal::c14_shm_pool_relational", features=CAL, covers=1, timeout=1800, mem_gb=8,
       what="shm pool allocator: the same 3-step history over two differently placed segments yields identical offsets",
       bounds="unwind 8; placements shifted by 0/16/32 bytes"),
@@ -828,7 +833,7 @@ PROPS["C19"].update({
 })
 
 # properties whose checks are still being stabilised are not claimed in MANIFEST.json yet
-NOT_READY = ["C01", "C02", "C03", "C05", "C09", "C10", "C12", "C13", "C14", "C16", "C19"]
+NOT_READY = ["C01", "C02", "C05", "C09", "C10", "C12", "C13", "C14"]
 for _p in PROPS:
     PROPS[_p]["claimed"] = (_p not in NOT_READY) and ("level_text" in PROPS[_p])
 PROPS["C03"]["extra"] = [_engine_m("c08_completion")]
